@@ -161,7 +161,7 @@ pub fn worker(w: &mut Worker) {
                 let body0 = base.main;
                 let npos = positions(&body0);
                 let mut rets: Vec<Option<Stmt>> = vec![None];
-                for v in [Some("r1".to_string()), None] {
+                for v in [Some("r1".to_string()), None, Some("r 2".to_string())] {
                     rets.push(Some(Stmt::Return(v)));
                 }
                 for ret in &rets {
